@@ -319,10 +319,12 @@ PROPS = {
                       "results) fixes the reports owed, each discharged by exactly one request carrying exactly the expected events for exactly the expected apps (previous version = current version, next "
                       "version = an offered manifest version), or by one lost-event metric per event when it cannot be delivered; no other request, no retry, result only when nothing is owed; "
                       "(2) C10_reports_stay_in_the_session_with_fresh_request_ids: the same for the id monitor step6ids (every request of a check carries the session id of its first request, no request id twice); "
-                      "(3) C10_report_ok_meaning, C10_report_for_exactly_the_offered_known_apps, C10_event_versions, C10_templates.  Model tied to the code by trace equality on scripted runs; "
-                      "both monitors also run on every implementation trace.",
+                      "(3) C10_a_lost_event_follows_a_failed_exchange: the same for the monitor step10l (when the service URL is valid and the updater name and app ids are acceptable header values, so that every request can be built, "
+                      "a lost-event metric only follows a request whose exchange failed: no report is written off without having been attempted); "
+                      "(4) C10_report_ok_meaning, C10_report_for_exactly_the_offered_known_apps, C10_event_versions, C10_templates.  Model tied to the code by trace equality on scripted runs; "
+                      "the three monitors also run on every implementation trace.",
         "level_note": "Proved for the model, unbounded (GUIDs modelled as draws from an unbounded counter).  Model = code is sampled on scripted runs.",
-        "diff_meaning": "The report monitor (or the id monitor) rejects the implementation's trace (code 2), or the request / lost-metric / installer / result projection differs from the model's.",
+        "diff_meaning": "The report monitor (or the id monitor, or the loss monitor) rejects the implementation's trace (code 2), or the request / lost-metric / installer / result projection differs from the model's.",
         "rule": "random scripted environments with update offers for any subset of 1-3 apps, plan failure, 3 policy decisions, per-app results, and every delivery outcome (ok, transport, HTTP error, forged) of each report; distinct = distinct implementation trace; non-trivial = at least one request or completed check",
         "assumptions": ["harness trait implementations follow the trait contracts", "Storage trait contract: writes cached until commit, commit atomic"],
         "trusted_base": COMMON_TB + ["modelled, not verified: state_machine.rs, update_check.rs, builder.rs, app_set.rs, common.rs"],
